@@ -252,6 +252,10 @@ func (af *AdaptationField) stuffAF() {
 // delta is how much shifting needs to be done.
 // this function must be called before the field is marked as present.
 func (af *AdaptationField) resizeAF(start int, delta int) error {
+	if af.stuffingStart() > PacketSize {
+		// the length bytes of the optional fields point past the packet: nothing can be shifted
+		return gots.ErrAdaptationFieldTooLarge
+	}
 	if delta > 0 { // shifting for growing
 		end := af.stuffingStart()
 		startRight := start + delta
